@@ -34,8 +34,17 @@
   always points at a record of that key and version readable by the reader's code path, a client write linearised
   after the newest-check survives the repoint, no GC micro-step changes any key's register, at every file boundary
   (also after a cancel) every key holds its last linearised write, no Fatalf.
-  With a monitor fired the statements FAIL ON THE MODEL — counterexamples proved by evaluation, NOT yet reproduced on
-  the real code (candidate findings, DESIGN.md §9.4): `ConcGC.Ex.ce_inplace_get_fails` (a get between the in-place
+  TIED to the real store step by step by engine `concgc`: the GC goroutine is parked at every micro-step boundary
+  (hook points cg.*), 16 scripted schedules - those of the counterexamples below and a positive control, each also
+  through the request path HStore.GC - are run on the real code and `ConcGC.step` is compared after EVERY decision
+  (file lengths, buffers, heads, tree items, locks, thread labels, the gc writer's position and buffer, replies).
+  With a monitor fired the statements FAIL ON THE MODEL — counterexamples proved by evaluation, and REPRODUCED ON THE
+  REAL CODE by engine concgc (`ConcGC.ExReal.*`, Lemmas/ConcGCReal.lean: the schedules of the real runs evaluated in
+  the model; DESIGN.md §9.4): F25 (`unflushed_partial_lost`) was REPAIRED in /repo (168eada: the pass flushes the
+  files of its range first - in the model a schedule, a flusher run to completion before `gcStart`, on which
+  `hazCold` does not fire at the start); the others are KNOWN FINDINGS with schedule-specific keys.  The pass CANCELLED
+  at a file boundary is the pass over the shorter range (`C05_cancelled_pass_is_a_shorter_pass`, tied by engine seq:
+  CancelGC before the first file / after the first / second one).  The list: `ConcGC.Ex.ce_inplace_get_fails` (a get between the in-place
   overwrite and the repoint fails), `ce_reuse_wrong_value` (a reader parked across the reuse of an emptied file
   returns the key's NEWER value under its older version: `C05_unrestricted_statement_false`), `ce_coldflush_fatal`
   (a delayed flush of a file GC appends to hits Fatalf "wrong data file size"), `ce_unflushed_lost` (F25: a source
@@ -46,6 +55,8 @@
 -/
 import GoBeans.Lemmas.Conc
 import GoBeans.Lemmas.ConcGC
+import GoBeans.Lemmas.ConcGCReal
+import GoBeans.Lemmas.GCRefine
 open Conc
 
 theorem C05_gc_invisible (steps : List GStep) (s : KeyState) (pend : List (Nat × Nat))
@@ -107,3 +118,19 @@ theorem C05_no_fatal (cfg : ConcGC.GCfg) (hb : cfg.blind = false) (sched : List 
 /-- WITHOUT the monitor hypothesis the statement is false on the model (a reader parked across the reuse of a file the
     pass has emptied) — a candidate finding about the code, not reproduced on the real store -/
 theorem C05_unrestricted_statement_false : ¬ ConcGC.C05_fine_statement := ConcGC.C05_fine_statement_false
+
+/-- the statement for the in-place path alone (left open as "believed true" when the model was written) is false as
+    well: the schedule of the real run `reuse-delete` (a delete marker lands on the position a parked reader holds) -/
+theorem C05_inplace_statement_false : ¬ ConcGC.C05_inplace_statement := ConcGC.ExReal.C05_inplace_statement_false
+
+/-- "(or is cancelled)": a pass cancelled at a file boundary has looked at the files [begin, stop'] for some stop' below
+    the end of its range - it IS the pass over that shorter range, which re-establishes every invariant of the store
+    with the SAME reference map (so every key holds its last acknowledged write, also after a restart) -/
+theorem C05_cancelled_pass_is_a_shorter_pass (hash : Spec.Key → Nat) (K : Spec.Key → Prop) (cfg : Store.Cfg)
+    (hInj : StoreLemmas.InjOn hash K) {n : Nat} {b : Store.Bucket} {m : Spec.KV}
+    (inv : StoreLemmas.Inv hash K n b m) (lr : StoreLemmas.LastRec hash K b) (w : StoreLemmas.WF cfg b) (nz : StoreLemmas.NoZero b)
+    (begin stop stop' : Nat) (h1 : begin ≤ stop') (h2 : stop' ≤ stop) (hs : stop < b.head) :
+    StoreLemmas.Inv hash K n (Store.gcRun hash cfg b begin stop').1 m ∧ StoreLemmas.LastRec hash K (Store.gcRun hash cfg b begin stop').1
+    ∧ StoreLemmas.WF cfg (Store.gcRun hash cfg b begin stop').1 ∧ StoreLemmas.NoZero (Store.gcRun hash cfg b begin stop').1
+    ∧ (Store.gcRun hash cfg b begin stop').1.head = b.head :=
+  StoreLemmas.gcRun_refines hash K cfg hInj inv lr w nz begin stop' h1 (by omega)
